@@ -137,8 +137,24 @@ def c13_oracle(case, obs):
                 out.append(("step %d: accepted connection %s -> %s matches no SYN that was ever sent" % (i, frm, loc), None))
     for s, (loc, peer) in addrs.items():
         pass
-    # --- reclamation ---
+    # --- connect succeeded and losses stayed within the retransmit budget: accept hands the connection out ---
     plan = case.get("plan") or {}
+    ea = plan.get("expect_accept")
+    if ea and ea["drops"] < cfg["retx_max"]:
+        ok_at = conn.get(ea["cs"], {}).get("res")
+        cl = addrs.get(ea["cs"])
+        if ok_at and ok_at[1] == "ok" and cl:
+            got = [i for i, (c, o) in enumerate(zip(script, ob))
+                   if c[0] == "accept" and c[1] == ea["ls"] and o.get("r") == "ok" and tuple(o["from"]) == tuple(cl[0])]
+            tries = [i for i, (c, o) in enumerate(zip(script, ob)) if c[0] == "accept" and c[1] == ea["ls"]]
+            if not got:
+                out.append(("connect of slot %d returned Ok at step %d and only %d packet(s) were lost (retx_max %d), but none "
+                            "of the %d accepts on slot %d (last at step %d) handed out the connection from %s: the client is "
+                            "ESTABLISHED to nobody" % (ea["cs"], ok_at[0], ea["drops"], cfg["retx_max"], len(tries), ea["ls"],
+                                                       tries[-1] if tries else -1, cl[0]), None))
+            elif len(got) > 1:
+                out.append(("accept handed out the connection from %s %d times (steps %s)" % (cl[0], len(got), got), None))
+    # --- reclamation ---
     if plan.get("closed_all") and plan.get("settled"):
         out.extend(reclaimed(case, obs, plan))
     return out
@@ -224,13 +240,14 @@ class Spec(PropSpec):
     rule = ("scripts interleave connect / poll / cancel / accept / write / read / shutdown / drop on both ends and listener "
             "drop / re-listen, with every handshake and close packet deliverable, droppable and overtakable; backlog 1..3; "
             "targets with and without listener, unowned addresses; after the teardown both hosts are probed (netstat, "
-            "verif-hooks table counts and rows) and the port is bound again. Non-trivial = at least two of "
+            "verif-hooks table counts and rows) and the port is bound again; deterministic family: the bare ACK of the handshake "
+            "is lost and the client does not speak first (accept must still hand the connection out, once). Non-trivial = at least two of "
             "{connect ok, refused, timed out, accept, cancel} occurred; distinct = distinct (cfg, script)")
     assumptions = [
         "c13_index_coherent quantifies over every syscall sequence with arbitrary arguments and every inbound packet sequence (kreach)",
         "c13_connect_iff is the decision taken when the SYN / the reply is processed; reachability of the listener's host is the wire's business (the harness is the wire)",
         "c13_owned / c13_accept_once are stated on `ostep` (one host's kernel with the fds its application holds) and carried to histories of the whole world model (hosts + wire + handle table, the model the correspondence runs) by the proved simulation c13_world_projects; a handle is never created in an occupied slot (harness and model refuse it), a panicking accept is not a step; wakers are not modelled",
-        "sequence numbers are unbounded naturals; ephemeral-port wrap-around (16384 connects) is not exercised",
+        "sequence numbers: the theorems are stated on unbounded naturals (side condition, not proved: every live sequence distance - in flight, window, send/receive buffer - stays below 2^31, so that the code's wrapping_sub/wrapping_add comparisons agree with them; caps and windows are at most 65535/70000); the model's wire encoding is mod 2^32 and the deterministic `wrap` family of C06 (ISN = 2^32-k on both hosts via verif hook 71a27bd, k in {1,100,1460,5000}, both roles, both directions, with and without loss) checks model/implementation correspondence and the byte-stream oracle across the wrap", "ephemeral-port wrap-around (16384 connects) is not exercised",
     ]
     partial_note = ("c13_reclaimed_partial: proved are the reap post-condition of every egress pass, immediate removal on close of "
                     "sockets without a live connection, linger/RST on close of open ones, and the strictly decreasing retransmit "
@@ -242,7 +259,7 @@ class Spec(PropSpec):
         n = 400 if ctx.tier == "quick" else 3000
         if ctx.escalate:
             n *= 2
-        cases = []
+        cases = F.handshake_ack_lost_cases()
         for i in range(n):
             r = i % 10
             if r < 7:
